@@ -23,7 +23,7 @@
    depth, any order of ref/unref/close, any number of pending restack requests, any fuel (running
    out of fuel is never a normal-looking value; that enough fuel exists is not proved). *)
 From Coq Require Import ZArith List Bool PArith.
-From Tickit Require Import LifeDefs LifeLemmas LifeInv LifeClose LifeQueue LifeDestroy LifeFate LifeSpec LifeProofs LifeAgree LifeWitness.
+From Tickit Require Import LifeDefs LifeLemmas LifeInv LifeClose LifeQueue LifeDestroy LifeFate LifeSpec LifeProofs LifeAgree LifeWitness LifePenDefs LifePen.
 Import ListNotations.
 Local Open Scope Z_scope.
 
@@ -104,6 +104,38 @@ Theorem C08_copy_bounded : forall k b,
   exists r b', get_span_text false k b = Some (r, b') /\ length b' = length b.
 Proof. exact copy_bounded. Qed.
 Print Assumptions C08_copy_bounded.
+
+(* the render buffer's pen stack (model LifePenDefs.v of setpen / save / savepen / restore, whole-line
+   text and erase, clear, reset, flush and destroy in src/renderbuffer.c): the invariant [rinv]
+   "every pen's and every string's count is the number of its holders -- the current-pen slot, the
+   stack frames and the cells naming it -- and an object is live exactly when it has a holder"
+   is kept by every call *)
+Theorem C08_penstack_step : forall o r, rinv r -> exists r', rb_step o r = Some r' /\ rinv r'.
+Proof. exact pen_step_inv. Qed.
+Print Assumptions C08_penstack_step.
+
+(* hence after every program every count is exact ... *)
+Theorem C08_refcount_exact_penstack : forall lines l, exists r,
+  rb_exec l (rb_new lines) = Some r /\
+  (forall p, PM.find p (rb_pens r) = enc (cnt (pen_holders r) p)) /\
+  (forall s, PM.find s (rb_strs r) = enc (cnt (str_holders r) s)).
+Proof. exact refcount_exact_penstack. Qed.
+Print Assumptions C08_refcount_exact_penstack.
+
+(* ... the numbers of live pens and strings that the harness observes are the numbers of distinct
+   pens and strings that are held ... *)
+Theorem C08_penstack_counts : forall lines l, exists r,
+  rb_exec l (rb_new lines) = Some r /\
+  rb_counts r = (Z.of_nat (length (nodup Pos.eq_dec (pen_holders r))),
+                 Z.of_nat (length (nodup Pos.eq_dec (str_holders r))),
+                 Z.of_nat (length (rb_stack r))).
+Proof. exact penstack_counts. Qed.
+Print Assumptions C08_penstack_counts.
+
+(* ... and no program touches a released pen or string, and the final unref releases them all *)
+Theorem C08_penstack_no_fault_all_released : forall lines l, exists obs, rb_run lines l = RVOk obs 0 0.
+Proof. exact penstack_no_fault_all_released. Qed.
+Print Assumptions C08_penstack_no_fault_all_released.
 
 (* tickit_mockterm_get_display_text is kept as pinned (t/20mockterm.c relies on the NUL at buffer[len]):
    outside the trigger class -- a cell's text filling the remaining length exactly -- it stays inside *)
